@@ -163,28 +163,12 @@ namespace
     rec();
     return out;
   }
-  void run_bezier(const std::shared_ptr<std::vector<std::vector<IP>>> &PL, int L, uint64_t idx, Ctx &ctx)
+  // judges the kernel's answer for every query against dense sampling + refinement
+  void bezier_judge(const WorldBuilder::Objects::BezierCurve &curve, const std::vector<Point<2>> &pts, const std::string &ps, const std::string &shape, const double unit,
+                    const std::vector<std::array<double,2>> &queries, Ctx &ctx)
   {
     static const int c_q = Ctx::counter_id("bezier_queries_with_interior_foot"), c_end = Ctx::counter_id("bezier_queries_foot_at_curve_end");
-    const std::vector<IP> &pl = (*PL)[idx];
-    const double unit = 1e5;
-    std::vector<Point<2>> pts;
-    for (auto &p : pl) pts.emplace_back(unit*static_cast<double>(p[0]), unit*static_cast<double>(p[1]), CoordinateSystem::cartesian);
-    const WorldBuilder::Objects::BezierCurve curve(pts);
-    std::string ps = "[";
-    for (size_t i = 0; i < pl.size(); ++i) ps += (i ? "," : "") + std::string("[") + std::to_string(pl[i][0]) + "," + std::to_string(pl[i][1]) + "]";
-    ps += "]";
     const size_t nseg = pts.size()-1;
-    bool has_collinear = false;
-    for (size_t i = 0; i+2 < pl.size(); ++i) if (georef::cross(pl[i], pl[i+1], pl[i+2]) == 0) has_collinear = true;
-    const std::string shape = has_collinear ? "polyline-with-exactly-collinear-consecutive-coordinates" : "polyline-without-collinear-coordinates";
-    // (1) passes through its coordinates
-    for (size_t i = 0; i < nseg; ++i)
-      {
-        const Point<2> a = curve(i, 0.0), b = curve(i, 1.0);
-        if ((a-pts[i]).norm() > 1e-9*unit || (b-pts[i+1]).norm() > 1e-9*unit)
-          ctx.violation("C19/bezier/does-not-pass-through-coordinates", JObj().raw("polyline_lattice", ps).integer("segment", static_cast<long long>(i)).done());
-      }
     // samples
     const int NS = 1500;
     std::vector<std::array<double,2>> samp(nseg*(NS+1));
@@ -193,18 +177,6 @@ namespace
           const Point<2> p = curve(i, static_cast<double>(k)/NS);
           samp[i*(NS+1)+static_cast<size_t>(k)] = {{p[0], p[1]}};
         }
-    std::vector<std::array<double,2>> queries;
-    for (int qx = -2; qx <= 2*(L-1)+2; ++qx) for (int qy = -2; qy <= 2*(L-1)+2; ++qy)
-        queries.push_back({{0.5*unit*qx + 0.013*unit, 0.5*unit*qy - 0.007*unit}});   // off the lattice: generic points
-    // points on the curve normal through every interior coordinate: their foot is the joint of two curve segments
-    for (size_t k = 1; k + 1 < pts.size(); ++k)
-      {
-        const Point<2> t = curve.get_control_points()[k][0] - pts[k];
-        const double tn = t.norm();
-        if (!(tn > 0)) continue;
-        for (double sd : {0.1, -0.1, 0.3, -0.3, 0.23456, -0.17})
-          queries.push_back({{pts[k][0] - sd*unit*t[1]/tn, pts[k][1] + sd*unit*t[0]/tn}});
-      }
     for (const auto &qq : queries)
         {
           const double x = qq[0], y = qq[1];
@@ -255,8 +227,84 @@ namespace
           if (std::fabs(std::fabs(r.distance) - dr) > 1e-6*unit) ctx.violation("C19/bezier/distance-inconsistent", detail("|reported distance| differs from the distance to the reported point"));
           if (dr > dmin*(1+1e-6) + 1e-6*unit) ctx.violation("C19/bezier/closer-point-exists/" + shape, detail("a sampled curve point is noticeably closer than the reported closest point"));
         }
+  }
+
+  void run_bezier(const std::shared_ptr<std::vector<std::vector<IP>>> &PL, int L, uint64_t idx, Ctx &ctx)
+  {
+    const std::vector<IP> &pl = (*PL)[idx];
+    const double unit = 1e5;
+    std::vector<Point<2>> pts;
+    for (auto &p : pl) pts.emplace_back(unit*static_cast<double>(p[0]), unit*static_cast<double>(p[1]), CoordinateSystem::cartesian);
+    const WorldBuilder::Objects::BezierCurve curve(pts);
+    std::string ps = "[";
+    for (size_t i = 0; i < pl.size(); ++i) ps += (i ? "," : "") + std::string("[") + std::to_string(pl[i][0]) + "," + std::to_string(pl[i][1]) + "]";
+    ps += "]";
+    const size_t nseg = pts.size()-1;
+    bool has_collinear = false;
+    for (size_t i = 0; i+2 < pl.size(); ++i) if (georef::cross(pl[i], pl[i+1], pl[i+2]) == 0) has_collinear = true;
+    const std::string shape = has_collinear ? "polyline-with-exactly-collinear-consecutive-coordinates" : "polyline-without-collinear-coordinates";
+    // (1) passes through its coordinates
+    for (size_t i = 0; i < nseg; ++i)
+      {
+        const Point<2> a = curve(i, 0.0), b = curve(i, 1.0);
+        if ((a-pts[i]).norm() > 1e-9*unit || (b-pts[i+1]).norm() > 1e-9*unit)
+          ctx.violation("C19/bezier/does-not-pass-through-coordinates", JObj().raw("polyline_lattice", ps).integer("segment", static_cast<long long>(i)).done());
+      }
+    std::vector<std::array<double,2>> queries;
+    for (int qx = -2; qx <= 2*(L-1)+2; ++qx) for (int qy = -2; qy <= 2*(L-1)+2; ++qy)
+        queries.push_back({{0.5*unit*qx + 0.013*unit, 0.5*unit*qy - 0.007*unit}});   // off the lattice: generic points
+    // points on the curve normal through every interior coordinate: their foot is the joint of two curve segments
+    for (size_t k = 1; k + 1 < pts.size(); ++k)
+      {
+        const Point<2> t = curve.get_control_points()[k][0] - pts[k];
+        const double tn = t.norm();
+        if (!(tn > 0)) continue;
+        for (double sd : {0.1, -0.1, 0.3, -0.3, 0.23456, -0.17})
+          queries.push_back({{pts[k][0] - sd*unit*t[1]/tn, pts[k][1] + sd*unit*t[0]/tn}});
+      }
+    bezier_judge(curve, pts, ps, shape, unit, queries, ctx);
     ctx.nontrivial();
     if (idx % 499 == 1) ctx.sample(JObj().str("kernel", "bezier closest point").raw("polyline_lattice", ps).done());
+  }
+
+  // ---------- Bezier: one bend, queries on the inside and the outside of it ----------
+  // trench A -> B -> C with segment lengths l1, l2 and a bend of beta degrees at B; query points on the curve normals through the last 40% of the
+  // segment before the bend and the first 40% after it, at offsets up to 150 km on both sides (the inside of a bend is where the distance
+  // function has competing minima and the iteration is slowest)
+  struct Bend { double l1, l2, beta; int extra; };
+  void run_bezier_bend(const std::shared_ptr<std::vector<Bend>> &B, uint64_t idx, Ctx &ctx)
+  {
+    const Bend &b = (*B)[idx];
+    const double unit = 1e5, br = b.beta * PI / 180;
+    std::vector<Point<2>> pts;
+    if (b.extra == 1) pts.emplace_back(-b.l1 - 2e5, -0.3e5, CoordinateSystem::cartesian);
+    pts.emplace_back(-b.l1, 0.0, CoordinateSystem::cartesian);
+    pts.emplace_back(0.0, 0.0, CoordinateSystem::cartesian);
+    pts.emplace_back(b.l2*std::cos(br), b.l2*std::sin(br), CoordinateSystem::cartesian);
+    if (b.extra == 2) pts.emplace_back(b.l2*std::cos(br) + 2.5e5*std::cos(br*0.5), b.l2*std::sin(br) + 2.5e5*std::sin(br*0.5), CoordinateSystem::cartesian);
+    const WorldBuilder::Objects::BezierCurve curve(pts);
+    std::string ps = "[";
+    for (size_t i = 0; i < pts.size(); ++i) ps += (i ? "," : "") + std::string("[") + num(pts[i][0]) + "," + num(pts[i][1]) + "]";
+    ps += "]";
+    const size_t s0 = b.extra == 1 ? 1 : 0;    // the segment before the bend
+    std::vector<std::array<double,2>> queries;
+    for (size_t seg : {s0, s0 + 1})
+      for (int k = 0; k <= 32; ++k)
+        {
+          const double t = seg == s0 ? 0.60 + 0.0125*k : 0.0125*k;
+          if (t > 0.9999) continue;
+          const Point<2> p = curve(seg, t), p2 = curve(seg, t + 1e-6);
+          double tx = p2[0]-p[0], ty = p2[1]-p[1];
+          const double tn = std::sqrt(tx*tx + ty*ty);
+          if (!(tn > 0)) continue;
+          tx /= tn; ty /= tn;
+          for (double off : {0.25e5, 0.5e5, 0.75e5, 1e5, 1.25e5, 1.5e5})
+            for (double sg : {1.0, -1.0})
+              queries.push_back({{p[0] - sg*off*ty, p[1] + sg*off*tx}});
+        }
+    bezier_judge(curve, pts, ps, "single-bend-family", unit, queries, ctx);
+    ctx.nontrivial();
+    if (idx % 37 == 1) ctx.sample(JObj().str("kernel", "bezier closest point, bend family").raw("polyline", ps).integer("queries", static_cast<long long>(queries.size())).done());
   }
 
   // ---------- conversions and great circle ----------
@@ -290,6 +338,29 @@ namespace
           if (!ok)
             ctx.violation("C19/conversion/round-trip", JObj().raw("spherical_r_lon_lat", jarr(s)).raw("back", jarr(back)).done());
         }
+    // polar caps: the latitude formula is delicate within a few degrees of a pole
+    {
+      static const int c_cap = Ctx::counter_id("conversion_round_trips_in_polar_caps");
+      for (double r : {1.0, 3480e3, 6371e3})
+        for (double colat : {1e-6, 1e-4, 0.004, 0.02, 0.05, 0.1, 0.25, 0.5, 1.0, 1.5, 2.0, 2.5, 2.8, 2.86, 2.9, 3.0, 4.0, 5.0, 8.0})
+          for (double south : {1.0, -1.0})
+            for (int lon = -180; lon < 180; lon += 30)
+              {
+                const double th = colat*PI/180;
+                const std::array<double,3> s = {{r, lon*PI/180, south*(0.5*PI - th)}};
+                const Point<3> c = WorldBuilder::Utilities::spherical_to_cartesian_coordinates(s);
+                const std::array<double,3> back = WorldBuilder::Utilities::cartesian_to_spherical_coordinates(c);
+                const Point<3> c2 = WorldBuilder::Utilities::spherical_to_cartesian_coordinates(back);
+                ctx.eval(); ctx.count(c_cap);
+                // the arc cosine resolves the colatitude th to about eps/th
+                const double tol = 1e-11 + 2e-15/th;
+                double dl = std::fabs(back[1]-s[1]);
+                dl = std::min(dl, std::fabs(dl - 2*PI));
+                if (!(std::fabs(back[0]-r) <= 1e-12*r && std::fabs(back[2]-s[2]) <= tol && dl*std::sin(th) <= tol && (c2 - c).norm() <= tol*r))
+                  ctx.violation("C19/conversion/round-trip/polar-cap", JObj().raw("spherical_r_lon_lat", jarr(s)).raw("back", jarr(back)).num("colatitude_degrees", colat).num("tolerance_radians", tol)
+                                .num("position_error", (c2 - c).norm()).done());
+              }
+    }
     const double R = 6371e3;
     for (auto &a : ll) for (auto &b : ll)
         {
@@ -322,7 +393,7 @@ int main(int argc, char **argv)
               "Vincenty reference. non-trivial: >= 2 points / both inside and outside / interior foot; cases distinct by construction";
   spec.assumptions = {"kernels are called directly through their public headers", "Bezier oracle: 1500 samples per segment plus refinement; queries whose nearest curve point is a curve end are not judged (counted)"};
   spec.counters = {"kd_queries", "kd_queries_with_ties", "polygon_queries", "polygon_boundary_queries", "bezier_queries_with_interior_foot", "bezier_queries_foot_at_curve_end",
-                   "conversion_round_trips", "great_circle_pairs", "great_circle_pairs_beyond_90_degrees"
+                   "conversion_round_trips", "conversion_round_trips_in_polar_caps", "great_circle_pairs", "great_circle_pairs_beyond_90_degrees"
                   };
   spec.quick_deadline_s = 300; spec.thorough_deadline_s = 1500;
   return driver(argc, argv, spec, [](const std::string &tier)
@@ -352,9 +423,17 @@ int main(int argc, char **argv)
       s.push_back(a);
     }
     {
+      auto B = std::make_shared<std::vector<Bend>>();
+      for (double l1 : {1e5, 3e5, 5e5}) for (double l2 : {1e5, 3e5, 5e5}) for (double beta : (th ? std::vector<double>{-60, -50, -45, -40, -30, -20, -10, 10, 20, 30, 40, 45, 50, 60} : std::vector<double>{-60, -45, -30, 30, 45, 60}))
+            for (int extra : {0, 1, 2}) B->push_back({l1, l2, beta, extra});
+      Suite bb; bb.name = "bezier_bend"; bb.n = B->size(); bb.run = [B](uint64_t i, Ctx &c) { run_bezier_bend(B, i, c); };
+      bb.bound = "trenches with one bend: segment lengths {100,300,500} km x {100,300,500} km x bends {" + std::string(th ? "-60..60 step 10 and +-45" : "+-30, +-45, +-60") + "} degrees x {3 coordinates, a 4th before, a 4th after}; 792 queries each on the curve normals around the bend, offsets 25..150 km on both sides";
+      s.push_back(bb);
+    }
+    {
       const int step = th ? 15 : 30;
       Suite a; a.name = "sphere"; a.n = 1; a.run = [step](uint64_t i, Ctx &c) { run_sphere(step, i, c); };
-      a.bound = "(lon,lat) lattice with " + std::to_string(step) + " degree step incl. poles and +-180: round trips at 3 radii, all ordered pairs for the great-circle distance";
+      a.bound = "(lon,lat) lattice with " + std::to_string(step) + " degree step incl. poles and +-180: round trips at 3 radii (plus 19 colatitudes between 1e-6 and 8 degrees around both poles x 12 longitudes), all ordered pairs for the great-circle distance";
       s.push_back(a);
     }
     return s;
